@@ -7,8 +7,9 @@ Definition OK : N := 0. Definition ERR_READ : N := 3. Definition ERR_WRITE : N :
 
 (* ===== host level (what mspack_system sees) ===== *)
 Inductive rd := RErr | RBytes (l : list byte).
-Inductive hcall : Type := HRead (n : N) | HWrite (d : list byte).
-Definition hanswer (c : hcall) : Type := match c with HRead _ => rd | HWrite _ => Z end.
+(* HHint: the value of a field the host may set asynchronously (lzx->length, set by the CAB block reader when it reads the last block) *)
+Inductive hcall : Type := HRead (n : N) | HWrite (d : list byte) | HHint.
+Definition hanswer (c : hcall) : Type := match c with HRead _ => rd | HWrite _ => Z | HHint => N end.
 Inductive prog (A : Type) : Type := Ret (a : A) | Do (c : hcall) (k : hanswer c -> prog A).
 Arguments Ret {A}. Arguments Do {A}.
 Fixpoint bind {A B} (p : prog A) (f : A -> prog B) : prog B :=
@@ -19,11 +20,12 @@ Inductive scall : Type :=
 | SNext                     (* READ_IF_NEEDED; *i_ptr++   : next input byte *)
 | SAvail                    (* READ_IF_NEEDED alone: make sure a byte is available, consume nothing *)
 | SCopyIn (n : nat)         (* deliver exactly n input bytes, chunk by chunk as buffered *)
-| SWrite (d : list byte).   (* sys->write(output, d, |d|) must accept all *)
+| SWrite (d : list byte)    (* sys->write(output, d, |d|) must accept all *)
+| SHint.                    (* read the output-length hint (lzx->length): 0 while unknown *)
 Inductive sres (A : Type) := SVal (a : A) | SStop (status : N).   (* SStop: the C function returns *)
 Arguments SVal {A}. Arguments SStop {A}.
 Definition sanswer (c : scall) : Type :=
-  match c with SNext => byte | SAvail => unit | SCopyIn _ => list byte | SWrite _ => unit end.
+  match c with SNext => byte | SAvail => unit | SCopyIn _ => list byte | SWrite _ => unit | SHint => N end.
 (* a decoder is a tree of source calls; an unavailable answer ends it with a status *)
 Inductive sprog (A : Type) : Type := SRet (a : A) | SDo (c : scall) (k : sanswer c -> sprog A).
 Arguments SRet {A}. Arguments SDo {A}.
@@ -54,25 +56,26 @@ Fixpoint ideal_take (rule : eofrule) (n : nat) (s : ist) (acc : list byte) : sre
             end
   end.
 
-Fixpoint ideal {A} (rule : eofrule) (p : sprog A) (s : ist) : sres A * ist :=
+Fixpoint ideal {A} (rule : eofrule) (hint : N) (p : sprog A) (s : ist) : sres A * ist :=
   match p with
   | SRet a => (SVal a, s)
   | SDo SNext k =>
       match ideal_next rule s with
-      | SVal (b, s') => ideal rule (k b) s'
+      | SVal (b, s') => ideal rule hint (k b) s'
       | SStop e => (SStop e, s)
       end
   | SDo SAvail k =>
       match irest s with
       | [] => (SStop (eof_status rule), s)
-      | _ :: _ => ideal rule (k tt) s
+      | _ :: _ => ideal rule hint (k tt) s
       end
   | SDo (SCopyIn n) k =>
       match ideal_take rule n s [] with
-      | SVal (l, s') => ideal rule (k l) s'
+      | SVal (l, s') => ideal rule hint (k l) s'
       | SStop e => (SStop e, s)
       end
-  | SDo (SWrite d) k => ideal rule (k tt) {| irest := irest s; iout := rev_append d (iout s) |}
+  | SDo (SWrite d) k => ideal rule hint (k tt) {| irest := irest s; iout := rev_append d (iout s) |}
+  | SDo SHint k => ideal rule hint (k hint) s
   end.
 
 (* ===== buffered interpretation: into host calls, with an input buffer of any size ===== *)
@@ -138,5 +141,6 @@ Fixpoint buffered (p : sprog A) (s : bst) : prog (sres A * bst) :=
   | SDo (SWrite d) k =>
       Do (HWrite d) (fun w => if Z.eqb w (Z.of_nat (length d)) then buffered (k tt) s
                               else Ret (SStop ERR_WRITE, s))
+  | SDo SHint k => Do HHint (fun h => buffered (k h) s)
   end.
 End Buffered.
